@@ -399,7 +399,8 @@ def run(ctx):
         pres = list(pool.map(c33plan._worker, ptasks))
     binp = None; seen = set()
     for r in pres:
-        tgt = 'Coordinator::plan_deploy_group'; cls = ' '.join(r['spec'][1:])
+        tgt = 'Coordinator::plan_deploy_group' if r['spec'][0] == 'plan' else 'placement call sites (coordinator.rs)'; cls = ' '.join(r['spec'][1:]) or 'scan + filter closures'
+        if r['spec'][0] == 'sites': ctx.notes.append('placement call sites found: %s' % ', '.join(r.get('sites', [])))
         if r.get('error'):
             ctx.inconclusive.append('%s (%s): %s' % (tgt, cls, r['error'])); continue
         for why in sorted(set(r['inconclusive'])): ctx.inconclusive.append('%s (%s): %s' % (tgt, cls, why))
@@ -412,7 +413,13 @@ def run(ctx):
             if key in seen: continue
             seen.add(key)
             if binp is None: binp = replay.build('cl')
-            ctx.findings.append(Finding(key, '%s %s: %s (witness %s)' % (tgt, cls, v['name'], v.get('witness')), [binp, 'workers', 'plan'], v.get('witness') or {}))
+            site = (v.get('witness') or {}).get('site', '')
+            if r['spec'][0] == 'sites' and 'plan_deploy_group' not in site:
+                # failover / drain / the async deploy_group are coroutines that talk HTTP: no native replay; the obligation is about the closure's own MIR and
+                # the witness is a concrete worker the filter accepts although is_available is false for it
+                ctx.findings.append(Finding('placement-site:%s' % site, '%s: %s (witness %s)' % (tgt, v['name'], v.get('witness')), None, v.get('witness') or {}))
+            else:
+                ctx.findings.append(Finding(key, '%s %s: %s (witness %s)' % (tgt, cls, v['name'], v.get('witness')), [binp, 'workers', 'plan'], v.get('witness') or {}))
     names = {'is_available': 'WorkerNode::is_available', 'sweep': 'health_sweep', 'heartbeat': 'Coordinator::heartbeat', 'round_robin': 'RoundRobinPlacement::place', 'least_loaded': 'LeastLoadedPlacement::place'}
     for r in res:
         tgt = names[r['spec'][0]]; cls = ' '.join(r['spec'][1:]) or '-'
